@@ -199,6 +199,8 @@ func runC18(c *Check) {
 	c18Processed(c, P, processed, key, isKeyGet)
 	c18Send(c, P, key)
 	c18Adapters(c, P)
+	c16Reply(c, P+".O6")
+	c18ListenerTimeout(c, P, listen)
 }
 
 func c18Filter(c *Check, P string, hn *ssa.Function, isKeyGet func(ssa.Value, func(ssa.Value) bool) bool) {
@@ -597,6 +599,60 @@ func c18Send(c *Check, P string, key string) {
 		}
 		c.Floor(P+".O1", "Set(OperationIDMetadataKey) on the command", n, 1)
 	}
+	// every error return has cancelled the derived context (nothing keeps listening)
+	var wc ssa.CallInstruction
+	for _, cl := range CallsTo(fn, nWithCancel) {
+		wc = cl
+	}
+	if c.Floor(P+".O4", "context.WithCancel in SendWithReplies", b2i(wc != nil), 1) {
+		isCancel := func(v ssa.Value) bool {
+			return AnyOrigin(v, func(o ssa.Value) bool { e, ok := o.(*ssa.Extract); return ok && e.Tuple == CallValue(wc) && e.Index == 1 })
+		}
+		errCell := ResultCell(fn, 2)
+		deferred := false
+		AllInstrs(fn, func(in ssa.Instruction) {
+			d, ok := in.(*ssa.Defer)
+			if !ok {
+				return
+			}
+			f := FuncOfValue(d.Call.Value)
+			if f == nil || errCell == nil {
+				return
+			}
+			_, ne := NilEdges(f, IsLoadOfCell(errCell))
+			for _, cl := range CallsIn(f) {
+				if isCancel(cl.Common().Value) && len(ne) > 0 && d.Block() == fn.Blocks[0] {
+					// on the error edge every path of the closure calls cancel
+					okAll := true
+					for _, e := range ne {
+						re := ReachEdge(e, NewCut().AddInstrs(cl))
+						for _, ret := range Returns(f) {
+							if re[ret] {
+								okAll = false
+							}
+						}
+					}
+					if okAll {
+						deferred = true
+					}
+				}
+			}
+		})
+		for i, r := range Returns(fn) {
+			if RetNil(r, 2) {
+				continue
+			}
+			ok := deferred
+			if !ok {
+				for _, cl := range CallsIn(fn) {
+					if _, isCall := cl.(*ssa.Call); isCall && isCancel(cl.Common().Value) && Dominates(fn, cl, r) {
+						ok = true
+					}
+				}
+			}
+			c.Report(ok, P+".O4", "CANCEL-ON-EVERY-ERROR", fn, r.Pos(), fmt.Sprintf("error return#%d", i), "when SendWithReplies fails (also after the listener was started) the derived context has been cancelled, so the listener terminates and its finish hook runs")
+		}
+	}
 	// replies come from the listener; on errors the derived context is cancelled
 	for ret, vals := range ReturnValues(fn, 0) {
 		for _, v := range vals {
@@ -701,4 +757,39 @@ func c18Adapters(c *Check, P string) {
 		c.Report(okMsg, P+".O2", "REPLY-FOR-ORIGINAL-COMMAND", inner, p.Pos(), name, "the reply is produced for the original command message taken from the handler context")
 	}
 	_ = types.Typ
+}
+
+// c18ListenerTimeout: when ListenForReplyTimeout is configured, the listener's
+// context — the one every escapable send and receive of the listener listens
+// on — is WithTimeout(ctx, *ListenForReplyTimeout); a timeout implemented only
+// as a case of the main loop cannot release a listener blocked in a send.
+func c18ListenerTimeout(c *Check, P string, listen *ssa.Function) {
+	isTO := func(v ssa.Value) bool {
+		return AllOrigins(v, func(o ssa.Value) bool {
+			f := LoadedField(o)
+			return f != nil && f.Name() == "ListenForReplyTimeout"
+		})
+	}
+	_, set := NilEdges(listen, isTO)
+	if !c.Floor(P+".O5", "test `ListenForReplyTimeout != nil`", len(set), 1) {
+		return
+	}
+	var wts []ssa.CallInstruction
+	for _, cl := range CallsTo(listen, nWithTimeout) {
+		d := firstOrigin(cl.Common().Args[1])
+		if u, ok := d.(*ssa.UnOp); ok && isTO(u.X) {
+			wts = append(wts, cl)
+		}
+	}
+	if !c.Floor(P+".O5", "context.WithTimeout(ctx, *ListenForReplyTimeout)", len(wts), 1) {
+		return
+	}
+	wt := wts[0]
+	c.Report(GuardedBy(listen, wt, set), P+".O5", "TIMEOUT-CONTEXT", listen, wt.Pos(), "WithTimeout", "the timeout context is derived on the edge where a timeout is configured")
+	// on that edge, the context handed to the subscriber and captured by the listener is the timeout context
+	subs := CallsTo(listen, nSubscribe)
+	for _, s := range subs {
+		okS := AnyOrigin(Arg(s, 0), func(o ssa.Value) bool { e, ok := o.(*ssa.Extract); return ok && e.Tuple == CallValue(wt) && e.Index == 0 })
+		c.Report(okS, P+".O5", "TIMEOUT-BOUNDS-LISTENER", listen, s.Pos(), "listener context", "the listener's context (used by Subscribe and by every escapable send/receive of the listener) is the one bounded by ListenForReplyTimeout")
+	}
 }
